@@ -517,7 +517,7 @@ LoopOnIterator:
 
 		if userRelation == "" {
 			for _, f := range req.GetUserFilters() {
-				if f.GetType() == userObjectType {
+				if f.GetType() == userObjectType && f.GetRelation() == "" {
 					user := tuple.StringToUserProto(tuple.BuildObject(userObjectType, userObjectID))
 
 					concurrency.TrySendThroughChannel(ctx, foundUser{
